@@ -274,10 +274,16 @@ def corpus_layout_check(rep, G, repo, limit=400):
         toks2 = (["class", "Ctx", "{"] + merged + ["}", ";"]) if ctx == "member" else merged
         if ctx == "member" and toks2[3:4] and toks2[3] not in ("template", "static", "enum", "enum class", "__") and len(merged) > 1 and merged[1] == "(":
             toks2[1] = merged[0]            # a constructor: the class must carry its name
-        try:
-            parser.Module.parseString(" ".join(toks2))
-        except Exception:
-            continue                        # the abstraction did not produce a stand-alone declaration; skip
+        parses = False
+        for text in layouts_of(G, toks2, default_merged=True).values():
+            try:
+                parser.Module.parseString(text)
+                parses = True
+                break
+            except Exception:
+                pass
+        if not parses:
+            continue                        # the abstraction did not produce a stand-alone declaration in ANY layout; skip
         n += 1
         if layout_differential(rep, G, toks2, default_merged=True):
             break
